@@ -664,6 +664,41 @@ def c14_failed_save(h):
     return h.ops
 
 
+def c06_failed_save(h):
+    """(2.2, pickle) an id is handed out, then a periodic save FAILS in the serialiser (the wake-up announcement of a
+    smart sleeping node grows its desired-state table while it is pickled; the announcement marks nothing as changed),
+    then a clean stop + start and another id request: the failed save must leave the reservation to be written by
+    stop()."""
+    r = h.r
+    n = r.choice([1, 7, 42])
+    h.node(n)
+    h.node(r.choice([2, 9]))
+    for c in (1, 2, 3)[:r.choice([2, 3])]:
+        h.child(n, c, typ=r.choice([0, 1, 3, 6, 16]))
+    h.wake(n)
+    h.drain()
+    h.ops.append(("save",))
+    h.child(n, r.choice([10, 77]), typ=r.choice([0, 1, 3, 6, 16]))      # not in the desired-state table yet
+    for _ in range(r.choice([1, 2])):
+        h.idreq()
+    h.drain()
+    mark = len(h.ops)
+    h.internal(n, 32, "500")
+    new = h.ops[mark:]
+    if h.sync:
+        j = next(i for i, o in enumerate(new) if o == ("pump",))
+        new[j] = ("save_fail_during", ("pump",))
+    else:
+        new[0] = ("save_fail_during", new[0])
+    h.ops[mark:] = new
+    h.drain()
+    h.ops.append(("restart",))
+    for _ in range(r.choice([1, 2])):
+        h.idreq()
+    h.drain()
+    return h.ops
+
+
 # ------------------------------------------------------------------------------------------- persistence plumbing
 def assign_persist(cases, tag, fmt):
     """Give every case its own fresh persistence file; `fmt(i, case)` -> "json" | "pickle" | None (no persistence).
